@@ -369,7 +369,7 @@ class _FPCoreCompileInstance(Visitor):
         stop_expr = self._visit_expr(stop, ctx)
         step_expr = self._visit_expr(step, ctx)
         return fpc.Tensor(
-            [(tuple_id, fpc.Ctx({ 'precision': 'integer' },
+            [(tuple_id, fpc.Ctx({ 'precision': 'integer', 'round': 'toPositive' },
                 fpc.Ceil(fpc.Div(fpc.Sub(stop_expr, start_expr), step_expr))))],
             fpc.Ctx({ 'precision': 'integer' },
                 fpc.Add(fpc.Mul(fpc.Var(tuple_id), step_expr), start_expr))
